@@ -751,11 +751,14 @@ func reachableFuncs(root *ssa.Function) []*ssa.Function {
 }
 
 
-// argValues: v itself, or, when v is a parameter of a closure nested in top,
-// the values passed in that position at every call of the closure.
+// argValues: v itself, or, when v is a parameter of a closure nested in top (or of a helper the
+// pinned tree does not have), the values passed in that position at every call of it inside top.
 func argValues(v ssa.Value, top *ssa.Function) []ssa.Value {
 	par, ok := core.Unwrap(v).(*ssa.Parameter)
-	if !ok || par.Parent() == nil || par.Parent().Parent() == nil {
+	if !ok || par.Parent() == nil || par.Parent() == top {
+		return []ssa.Value{v}
+	}
+	if par.Parent().Parent() == nil && !(core.Transparent != nil && core.Transparent(par.Parent())) {
 		return []ssa.Value{v}
 	}
 	g := par.Parent()
@@ -777,4 +780,60 @@ func argValues(v ssa.Value, top *ssa.Function) []ssa.Value {
 		return []ssa.Value{v}
 	}
 	return out
+}
+
+
+// liveBlocks: the blocks of f from which an instruction satisfying pred can still be reached; an
+// instruction inside a helper the pinned tree does not have counts at the helper's call site.
+func liveBlocks(f *ssa.Function, pred func(ssa.Instruction) bool) map[*ssa.BasicBlock]bool {
+	reach := map[*ssa.Function]bool{}
+	var has func(g *ssa.Function, depth int) bool
+	has = func(g *ssa.Function, depth int) bool {
+		if v, ok := reach[g]; ok {
+			return v
+		}
+		reach[g] = false
+		for _, b := range g.Blocks {
+			for _, in := range b.Instrs {
+				if pred(in) {
+					reach[g] = true
+					return true
+				}
+				if c, ok := in.(*ssa.Call); ok && depth > 0 {
+					if h := c.Call.StaticCallee(); h != nil && len(h.Blocks) > 0 && core.Transparent != nil && core.Transparent(h) && has(h, depth-1) {
+						reach[g] = true
+						return true
+					}
+				}
+			}
+		}
+		return false
+	}
+	live := map[*ssa.BasicBlock]bool{}
+	for _, b := range f.Blocks {
+		for _, in := range b.Instrs {
+			if pred(in) {
+				live[b] = true
+			}
+			if c, ok := in.(*ssa.Call); ok {
+				if h := c.Call.StaticCallee(); h != nil && len(h.Blocks) > 0 && core.Transparent != nil && core.Transparent(h) && has(h, 3) {
+					live[b] = true
+				}
+			}
+		}
+	}
+	for changed := true; changed; {
+		changed = false
+		for _, b := range f.Blocks {
+			if live[b] {
+				continue
+			}
+			for _, sc := range b.Succs {
+				if live[sc] {
+					live[b], changed = true, true
+				}
+			}
+		}
+	}
+	return live
 }
